@@ -11,8 +11,8 @@ import UF.Model.Match
   `matchAllG` functions are generic in the match predicate `m` (instantiated with
   `fun r => r.matches ext q`), the lower-cased URL and the source hostname.
 -/
-namespace UF
-open Bytes
+namespace UF.B
+open UF UF.Bytes
 
 /-- Storage index (Go `int64`). -/
 abbrev Idx := Int
@@ -99,6 +99,13 @@ def DomainsTable.tryAdd (hf : HashFns) (t : DomainsTable) (r : NetRule) (idx : I
   else if r.permDomains.any (fun d => hasSuffix d (lit ".*")) then none
   else some ⟨r.permDomains.foldl (fun lk d => pushIdx lk (hf.h d) idx) t.lookup⟩
 
+/-- `DomainsTable.TryAdd` BEFORE the D1 repair (kept only for the negation witness in Props/C01):
+    a wildcard-TLD domain is filed under its literal text. -/
+def DomainsTable.tryAddOld (hf : HashFns) (t : DomainsTable) (r : NetRule) (idx : Idx) :
+    Option DomainsTable :=
+  if r.permDomains.isEmpty then none
+  else some ⟨r.permDomains.foldl (fun lk d => pushIdx lk (hf.h d) idx) t.lookup⟩
+
 /-- One step of the loop of `getSubdomains` (Go walks `parts` from the last to the first). -/
 def subdomainStep (p : Bytes) (acc : Bytes × List Bytes) : Bytes × List Bytes :=
   let d := if acc.1.isEmpty then p else p ++ ch '.' :: acc.1
@@ -123,4 +130,4 @@ def DomainsTable.matchAllG (hf : HashFns) (retrieve : Idx → Option NetRule) (m
 /-- `containsRule` of the sequential table: same rule text. -/
 def containsRule (rs : List NetRule) (r : NetRule) : Bool := rs.any (·.text == r.text)
 
-end UF
+end UF.B
